@@ -103,6 +103,19 @@ def _param_table():
     for (a, b), ex in (((0.2, 1.0), 'ok'), ((None, 1.0), 'ok'), ((0.2, None), 'ok'), ((1.0, 0.2), 'ValueError'), ((-0.1, 1.0), 'ValueError')):
         add('limit_df start=%r stop=%r' % (a, b), lambda a=a, b=b: limit_df(df, fs, start=a, stop=b), ex)
         add('limit_signal start=%r stop=%r' % (a, b), lambda a=a, b=b: limit_signal(np.arange(len(sig)) / fs, sig, start=a, stop=b), ex)
+    def stale_after_valid():
+        bk = {'amp_threshes': (1, 2)}
+        compute_features(sig, fs, fr, burst_method='amp', burst_kwargs=bk, threshold_kwargs={'min_n_cycles': 3})       # a valid analysis first
+        compute_features(sig, fs, fr, burst_method='amp', burst_kwargs=bk, threshold_kwargs={'min_n_cycles': -2})      # same option object, invalid setting
+    add('negative min_n_cycles after a valid call sharing burst_kwargs', stale_after_valid, 'ValueError')
+    def refit_invalid():
+        bm = Bycycle(burst_method='amp', thresholds={'burst_fraction_threshold': 0.8, 'min_n_cycles': 3})
+        bm.fit(sig, fs, fr); bm.thresholds['min_n_cycles'] = -2; bm.fit(sig, fs, fr)
+    add('Bycycle re-fit after setting min_n_cycles = -2', refit_invalid, 'ValueError')
+    def refit_invalid_cycles():
+        bm = Bycycle(thresholds={'monotonicity_threshold': 0.5, 'min_n_cycles': 2})
+        bm.fit(sig, fs, fr); bm.thresholds['monotonicity_threshold'] = 1.5; bm.fit(sig, fs, fr)
+    add('Bycycle re-fit after setting a threshold to 1.5', refit_invalid_cycles, 'ValueError')
     add('check_min_burst_cycles list input', lambda: check_min_burst_cycles([True, False]), 'ValueError')
     for v, ex in ((3, 'ok'), (0, 'ok'), (-1, 'ValueError')):
         add('compute_shape_features n_cycles=%r' % v, (lambda v=v: compute_shape_features(sig, fs, fr, n_cycles=v)) if v != 0 else (lambda: None), ex)
